@@ -17,6 +17,7 @@ Pre-existing defect classes of the pinned tree are keyed narrowly in known_findi
 import json, os, re, collections
 from common import *
 import sqlcases
+import transport_corpus as TC
 
 CORPUS = [
     "SELECT c1, c2, sum(c2) OVER (PARTITION BY c1 ORDER BY c2 NULLS FIRST ROWS BETWEEN 1 PRECEDING AND CURRENT ROW) AS w FROM t1",
@@ -72,12 +73,12 @@ def gen_cases(ctx):
         cases += cs
         states += r.distinct
         trans += r.generated
-    # corpus over a few of the generated databases
-    dbs = [c for c in cases if all(len(t["rows"]) >= 2 for t in c["tables"])][: (3 if ctx.quick else 12)] or cases[:1]
-    corpus = []
+    # coverage corpus on the fixed database (external tables, views, API-built plans) + base corpus on generated databases
+    corpus = TC.cases(ctx.work, CORPUS)
+    dbs = [c for c in cases if all(len(t["rows"]) >= 2 for t in c["tables"])][: (1 if ctx.quick else 6)] or cases[:1]
     for di, d in enumerate(dbs):
         for qi, q in enumerate(CORPUS):
-            corpus.append({"id": f"q{di}-{qi}", "sql": q, "tables": d["tables"], "corpus": True})
+            corpus.append({"id": f"q{di}-{qi}", "sql": q, "tables": d["tables"], "corpus": True, "flags": []})
     return cases, corpus, states, trans
 
 
@@ -92,10 +93,21 @@ def norm_types(ts):
 def semantic(case, orig, ex):
     """None | ('violation'|'refdis', message)."""
     if case.get("corpus"):
+        flags = case.get("flags", [])
         if "err" in orig:
             return None                       # original does not run: nothing to compare
         if "err" in ex:
             return ("violation", "transported plan fails but the original runs: " + ex["err"][:300])
+        if "nocmp" in flags:
+            return None
+        if "count" in flags:
+            if len(ex["rows"]) != len(orig["rows"]):
+                return ("violation", f"transported plan returns {len(ex['rows'])} rows, the original {len(orig['rows'])}")
+            return None
+        if "ordered" in flags:
+            if [json.dumps(r, sort_keys=True) for r in ex["rows"]] != [json.dumps(r, sort_keys=True) for r in orig["rows"]]:
+                return ("violation", "transported plan returns the rows in a different order / different rows than the original (totally ordered query)")
+            return None
         if rows_key(ex["rows"]) != rows_key(orig["rows"]):
             return ("violation", f"transported plan returns different rows than the original ({len(ex['rows'])} vs {len(orig['rows'])} rows)")
         return None
@@ -124,6 +136,8 @@ def unplannable_class(err):
         return "function applied to a bare (untyped) NULL"
     if "UNION queries have different number of columns" in err:
         return "UNION input with an empty projection written with a different number of select items"
+    if "which would be ambiguous" in err:
+        return "qualified field ambiguous with an unqualified one (DISTINCT ON rewritten to first_value .. GROUP BY)"
     if "join condition should not be empty" in err:
         return "outer join with an empty condition written without ON"
     return "other:" + sig(err)[:60]
@@ -134,6 +148,31 @@ def semantic_key(mode, name, case, v, msg, ex):
     pt, gen = v.get("plan_text", ""), v.get("sql") or ""
     feats = sqlcases.features_of(case["plan"]) if "plan" in case else set()
     failed = "err" in ex and ex.get("err")
+    sqltxt = case.get("sql", "")
+    if mode in ("c36", "c37") and not failed:
+        if re.search(r"\(DISTINCT [^()]*\) OVER", sqltxt):
+            return "window aggregate DISTINCT is not carried (count(DISTINCT x) OVER ..)"
+        if re.search(r"FILTER \(WHERE [^()]*\) OVER", sqltxt):
+            return "window aggregate FILTER is not carried (agg(x) FILTER (WHERE ..) OVER ..)"
+    if mode == "c36" and not failed and re.search(r"IGNORE NULLS\s+OVER", sqltxt):
+        return "window function null treatment (IGNORE NULLS) is not carried"
+    if mode == "c37" and not failed and 'Some("+02:00")' in sqltxt and name == "optimized":
+        return "cast to Timestamp with a time zone: the zone is not carried (optimized plan)"
+    if mode == "c37" and not failed and re.search(r"RANGE BETWEEN (\d+ (PRECEDING|FOLLOWING)|.* AND \d+ (PRECEDING|FOLLOWING))", pt):
+        return "window RANGE frame with numeric offsets: consumed plan returns different rows"
+    if mode == "c38" and not failed:
+        if re.search(r"Aggregate: .*ORDER BY \[", pt) and not re.search(r"\b(array_agg|first_value|last_value|string_agg|nth_value)\([^()]* ORDER BY ", gen):
+            return "aggregate function ORDER BY is not unparsed (array_agg(x ORDER BY ..) -> array_agg(x))"
+        if re.search(r"IGNORE NULLS", pt) and "IGNORE NULLS" not in gen:
+            return "window function null treatment (IGNORE NULLS) is not unparsed"
+        if name == "optimized" and "null_aware" in pt and "Filter:" in pt and re.search(r" NOT IN \(SELECT [^()]* FROM \w+ AS \w+\)", gen):
+            return "optimized plan: NOT IN (null-aware anti join): the subquery's WHERE filter is not unparsed"
+        if name == "optimized" and 'Some("+02:00")' in sqltxt and "TIMESTAMP WITH TIME ZONE" in gen:
+            return "optimized plan: cast to Timestamp(unit, zone) unparsed as TIMESTAMP WITH TIME ZONE (unit and zone lost)"
+        if name == "optimized" and re.search(r"FROM \(SELECT [^()]* ORDER BY [^()]*\) (LIMIT|OFFSET) ", gen + " "):
+            return "optimized plan: ORDER BY written inside a derived table while OFFSET/LIMIT is applied outside it"
+        if "SIMILAR TO" in pt and "SIMILAR TO" not in gen and "LIKE '(a|b)+'" in gen:
+            return "SIMILAR TO is unparsed as LIKE"
     if mode == "c35":
         if failed and "LIMIT must be >= 0" in msg and re.search(r"Limit: skip=\d+, fetch=None", pt):
             return "Limit.fetch None decoded as i64::MAX"
@@ -156,7 +195,7 @@ def semantic_key(mode, name, case, v, msg, ex):
         return "null-aware anti join (NOT IN) loses its null awareness"
     if mode == "c38" and not failed:
         if name == "optimized" and re.search(r"(Semi|Anti) Join:[^\n]*\n\s*Aggregate: groupBy=\[\[[^\n]*\]\], aggr=\[\[\]\]\n", pt) \
-                and gen.count("GROUP BY") + gen.count("DISTINCT") < pt.count("Aggregate:") + pt.count("Distinct:"):
+                and gen.count("GROUP BY") + gen.count("SELECT DISTINCT") < pt.count("Aggregate:") + pt.count("Distinct:"):
             return "optimized plan: group-by-only Aggregate (DISTINCT) that is the left input of a semi/anti Join is dropped"
         if (feats & {"setop:except", "setop:except:all", "setop:intersect", "setop:intersect:all"}) and "EXISTS (SELECT 1" in gen:
             return "EXCEPT/INTERSECT anti/semi join unparsed as [NOT] EXISTS with '=' (NULL-equal keys lost)"
@@ -188,6 +227,8 @@ def classify(mode, case, r):
                 gen = v.get("sql") or ""
                 if "ParserError" in err and re.search(r"--\s*\w", gen) and re.search(r"\(- \(- ", pt):
                     key = "nested unary minus unparsed as '--' (SQL comment)"
+                elif "Dot access not supported for non-string expr" in err and re.search(r"\{\w+: [^{}]*\}\.\w+", gen):
+                    key = "get_field on a struct constructor unparsed as `{k: v}.k` (does not plan)"
                 elif name == "optimized":
                     key = "optimized plan: generated SQL does not plan: " + unplannable_class(err)
                 else:
@@ -208,6 +249,10 @@ def classify(mode, case, r):
                 key = "Limit.fetch None decoded as i64::MAX"
             elif mode == "c35" and o.lstrip().startswith("TableScan") and " projection=[" in o and dd == o.split(" projection=[")[0] and "RecursiveQuery" in pt:
                 key = "TableScan.projection dropped (recursive query work table)"
+            elif mode == "c35" and o.startswith("CopyTo: ") and "options: (" in o and dd == o.split("options: (")[0] + "options: ()":
+                key = "CopyTo.options dropped"
+            elif mode == "c35" and dd.strip().startswith("Union") and len(re.findall(r"^(\s*)Union", pt, re.M)) == 1 and not o.strip().startswith("Union"):
+                key = "Union with more than two inputs decodes as nested binary Unions"
             elif mode == "c36" and "UnionExec" in pt and re.match(r"\s*ProjectionExec: expr=\[((CAST\()?(\w+)@\d+( AS \w+\))? as \3(, )?)+\]", dd):
                 key = "UnionExec child wrapped in an extra ProjectionExec"
             else:
@@ -260,7 +305,40 @@ def classify(mode, case, r):
         if "dec_err" in f and re.search(r"FieldNotFound|No field named", f["dec_err"]) and "Subquery" in f.get("original", ""):
             yield ("violation", "EmptyRelation.schema dropped: the parent node fails to decode (FieldNotFound)", {"expr": f})
         else:
-            yield ("violation", "expression round trip:" + sig(f.get("original", ""))[:50], {"expr": f})
+            k = pool_key({"expr": f.get("original", ""), "decoded": f.get("decoded", ""), "dec_err": f.get("dec_err", "")})
+            if k.startswith("pool expression"):
+                k = "expression round trip:" + sig(f.get("original", ""))[:50]
+            elif f.get("original", "").startswith("BinaryExpr(") and "Placeholder" in f.get("original", ""):
+                k = "Placeholder.field: only the data type is serialized (field name lost)"
+            yield ("violation", k, {"expr": f})
+
+
+def pool_key(e):
+    x, dec = e.get("expr", ""), str(e.get("decoded", ""))
+    if x.startswith("Literal(Float16") and dec.startswith("Literal(Float32"):
+        return "scalar Float16 decoded as Float32"
+    m = re.search(r"op: (Arrow|LongArrow|HashArrow|HashLongArrow|AtAt|IntegerDivide|HashMinus|AtQuestion|Question|QuestionAnd|QuestionPipe),", x)
+    if m and "Unsupported binary operator" in e.get("dec_err", ""):
+        return "BinaryExpr operator encodes but from_proto does not know it (Arrow/LongArrow/HashArrow/HashLongArrow/AtAt/IntegerDivide/HashMinus/AtQuestion/Question/QuestionAnd/QuestionPipe)"
+    if x.startswith("Placeholder(") and "field: Some(Field { name: \"\"" in dec.replace("\\", ""):
+        return "Placeholder.field: only the data type is serialized (field name lost)"
+    if "Placeholder(Placeholder" in x and 'name: ""' in dec and x.replace(re.search(r'field: Some\(Field \{ name: "[^"]*"', x).group(0) if re.search(r'field: Some\(Field \{ name: "[^"]*"', x) else "\0", 'field: Some(Field { name: ""') == dec:
+        return "Placeholder.field: only the data type is serialized (field name lost)"
+    if x.startswith("Alias(") and "metadata: Some(" in x and "metadata: None" in dec:
+        return "Alias.metadata dropped"
+    if x.startswith("Literal(") and "Some(FieldMetadata" in x and dec.endswith(", None)"):
+        return "Literal metadata dropped"
+    if x.startswith("SimilarTo(") and "case_insensitive: true" in x and "case_insensitive: false" in dec:
+        return "SimilarTo.case_insensitive dropped"
+    return "pool expression round trip:" + sig(x)[:50]
+
+
+TC_POOL_REQUIRED = {"BinaryExpr:" + o for o in ("Eq NotEq Lt LtEq Gt GtEq Plus Minus Multiply Divide Modulo And Or IsDistinctFrom IsNotDistinctFrom RegexMatch RegexIMatch RegexNotMatch "
+                    "RegexNotIMatch LikeMatch ILikeMatch NotLikeMatch NotILikeMatch BitwiseAnd BitwiseOr BitwiseXor BitwiseShiftRight BitwiseShiftLeft StringConcat AtArrow ArrowAt").split()} | {
+    "Between:neg=false", "Between:neg=true", "InList:neg=false", "InList:neg=true", "Case:base=false:else=true", "Case:base=true:else=false", "GroupingSet:Rollup", "GroupingSet:Cube",
+    "GroupingSet:Sets", "Placeholder:typed=false", "Negative", "Not", "IsNull", "IsNotNull", "IsTrue", "IsFalse", "IsUnknown", "IsNotTrue", "IsNotFalse", "IsNotUnknown", "Unnest", "Column",
+    "ScalarFunction", "Alias:rel=true:md=false", "Alias:rel=false:md=false"} | {f"Like:neg={n}:ci={c}:esc={x}" for n in ("true", "false") for c in ("true", "false") for x in ("true", "false")} | {
+    f"SimilarTo:neg={n}:ci=false:esc={x}" for n in ("true", "false") for x in ("true", "false")}
 
 
 CONFIGS = {
@@ -276,6 +354,12 @@ CONFIGS = {
 }
 
 
+try:
+    REQUIRED = {k: set(v) for k, v in json.load(open(os.path.join(os.path.dirname(__file__), "transport_required.json"))).items()}
+except Exception:
+    REQUIRED = {}
+
+
 def run_mode(ctx, mode, what):
     build("vaux")
     extra = {}
@@ -285,14 +369,17 @@ def run_mode(ctx, mode, what):
         states = trans = 1
     else:
         cases, corpus, states, trans = gen_cases(ctx)
+        if mode == "c38":
+            corpus = [c for c in corpus if "api" not in c]       # C38 is about plans the engine builds from SQL
         allcases, sets = cases + corpus, CONFIGS[mode]
     byid = {c["id"]: c for c in allcases}
     counts, okc = collections.Counter(), collections.Counter()
     nodes = collections.Counter()
+    matrix = collections.defaultdict(lambda: [0, 0])      # tag -> [variants round-tripped, variants the encoder/decoder rejected]
     evaluations, samples, nontrivial = 0, [], set()
     for si, args in enumerate(sets):
         inp, out = ctx.path(f"{mode}-{si}.in.ndjson"), ctx.path(f"{mode}-{si}.out.ndjson")
-        write_ndjson(inp, [{"id": c["id"], "sql": c["sql"], "tables": c["tables"]} for c in allcases])
+        write_ndjson(inp, [{k: c[k] for k in ("id", "sql", "tables", "setup", "api") if k in c} for c in allcases])
         run_harness(ctx, "vaux", ["transport", "--mode", mode, "--in", inp, "--out", out] + args, timeout=3000)
         for r in read_ndjson(out):
             c = byid[r["id"]]
@@ -303,6 +390,12 @@ def run_mode(ctx, mode, what):
                 continue
             for n in r.get("nodes", []):
                 nodes[n] += 1
+            table = TC.P_OPTS if mode == "c36" else TC.L_OPTS
+            for v in r.get("variants", []):
+                tg = TC.tags(v.get("plan_text", ""), table) | TC.node_tags(v.get("plan_text", ""), "node:")
+                done = ("enc_err" not in v and "dec_err" not in v)
+                for t in tg:
+                    matrix[t][0 if done else 1] += 1
             for kind, key, detail in classify(mode, c, r):
                 if kind == "ok":
                     okc[key] += 1
@@ -317,22 +410,26 @@ def run_mode(ctx, mode, what):
                     counts[key] += 1
                 else:
                     evaluations += 1
-                    rc = {k: c[k] for k in c if k in ("id", "sql", "tables", "corpus", "db", "schemas", "plan", "schema", "mode", "expect", "universe")}
+                    rc = {k: c[k] for k in c if k in ("id", "sql", "tables", "corpus", "flags", "setup", "api", "db", "schemas", "plan", "schema", "mode", "expect", "universe")}
                     report_violation(ctx, {"case": rc, "exec_args": args, "class": key, "detail": detail}, key=key)
     if mode == "c35" and not ctx.replay:
         outp = ctx.path("c35-exprs.out.ndjson")
         summ, _ = run_harness(ctx, "vaux", ["c35-exprs", "--out", outp])
         pool = read_ndjson(outp)
+        pool_matrix = collections.Counter()
         for e in pool:
             evaluations += 1
             if "enc_err" in e:
                 counts["pool_enc_err"] += 1
             elif e.get("equal") is not True:
-                key = "scalar Float16 decoded as Float32" if e["expr"].startswith("Literal(Float16") and str(e.get("decoded", "")).startswith("Literal(Float32") \
-                    else "pool expression round trip:" + sig(e["expr"])[:50]
-                report_violation(ctx, {"case": {"pool_expr": e}, "class": key, "detail": e}, key=key)
+                report_violation(ctx, {"case": {"pool_expr": e}, "class": pool_key(e), "detail": e}, key=pool_key(e))
             else:
                 okc["pool:" + e["kind"]] += 1
+                pool_matrix[e.get("variant", "?")] += 1
+        need = TC_POOL_REQUIRED - set(pool_matrix)
+        if need:
+            raise ToolError(f"vacuity: expression/scalar pool variants that did not round-trip or are missing: {sorted(need)[:8]}")
+        extra["pool_matrix"] = dict(sorted(pool_matrix.items()))
         extra["expr_scalar_pool"] = {"size": len(pool), "scalars": sum(1 for e in pool if e["kind"] == "scalar")}
         if summ:
             extra["plan_subexpressions_round_tripped"] = None
@@ -356,6 +453,15 @@ def run_mode(ctx, mode, what):
     }
     if nodes:
         cov["physical_operators_seen"] = dict(nodes)
+    cov["coverage_matrix"] = {"legend": "tag -> [plan variants with the tag that completed the round trip, variants with the tag that the encoder/decoder rejected]",
+                              "tags": {k: v for k, v in sorted(matrix.items())}}
+    if not ctx.replay:
+        req = REQUIRED.get(mode, set())
+        missing = sorted(t for t in req if matrix.get(t, [0, 0])[0] == 0)
+        cov["required_tags"] = len(req)
+        if missing:
+            write_evidence(ctx, "exploration", cov)
+            raise ToolError(f"vacuity: plan nodes/options that never completed a round trip in this run: {missing[:12]}")
     cov.update(extra)
     write_evidence(ctx, "exploration", cov, assumptions=[
         "semantic oracle = TLA+ relational reference (Rel.tla) for generated cases, witness-confirmed: a violation needs the original plan to agree with the reference and the transported plan not to; corpus queries use original-vs-transported equality in the engine",
